@@ -3,7 +3,7 @@ CONSTANTS
   Sigs = {1, 2}
   Events = {1, 2, 3}
   Configs <- CfgOne
-  Kinds = {"info", "plain", "ign", "dfl"}
+  Kinds = {"info", "plain", "ign", "dfl", "inforh"}
   MaxRaises = 0
   Redundant = TRUE
   Bug = "none"
